@@ -135,6 +135,9 @@ func runC02(r *core.Run) {
 
 	core.Clause(r, "all-bytes", core.Opts{Rule: "every byte value except CR, LF in the name, the sequence and the qualities (alone, first, middle, last), as the middle record of three; non-trivial = all"},
 		func(emit func(c02List) bool) {
+			for _, v := range []string{"é", "\xc5\x81", "日本", "\xe2\x80\xa8", "\xc2\x85", "\xef\xbb\xbfx", "a\xc2\xa0b", "a@b", "read@lane1", "a@b@c", "x+y"} {
+				emit(c02List{[]fqRec{{"first", "AC", "II"}, {core.S(v), core.S(v), core.S(v)}, {"last", "", ""}}})
+			}
 			for b := 0; b < 256; b++ {
 				if b == '\r' || b == '\n' {
 					continue
